@@ -171,8 +171,11 @@ vh::Outcome run_locks(const vh::Case& c, Prop prop) {
                             long acq0 = core->excl_acqs + core->shared_acqs;
                             if (is_try) st.in_try++;
                             auto h = kind == O_LOCK ? w.lock() : kind == O_TRY_LOCK ? w.try_lock() : [&] {
-                                if constexpr (timed_excl) return kind == O_TRY_LOCK_FOR ? w.try_lock_for(std::chrono::milliseconds(3))
-                                                                                     : w.try_lock_until(std::chrono::steady_clock::time_point::max());
+                                if constexpr (timed_excl) {
+                                    if (kind == O_TRY_LOCK_FOR) return w.try_lock_for(std::chrono::milliseconds(3));
+                                    if (op.b & 1) return w.try_lock_until(std::chrono::system_clock::now() + std::chrono::milliseconds(50));      // a deadline on another clock
+                                    return w.try_lock_until(std::chrono::steady_clock::now() + std::chrono::milliseconds(50));
+                                }
                                 else return w.try_lock();
                             }();
                             if (is_try) st.in_try--;
@@ -277,7 +280,7 @@ vh::Outcome run_locks(const vh::Case& c, Prop prop) {
                                 if (kind == O_TRY_LOCK_SHARED) return w.try_lock_shared();
                                 if constexpr (shared_timed) {
                                     if (kind == O_TRY_LOCK_SHARED_FOR) return w.try_lock_shared_for(std::chrono::milliseconds(3));
-                                    if (kind == O_TRY_LOCK_SHARED_UNTIL) return w.try_lock_shared_until(std::chrono::steady_clock::time_point::max());
+                                    if (kind == O_TRY_LOCK_SHARED_UNTIL) { if (op.b & 1) return w.try_lock_shared_until(std::chrono::system_clock::now() + std::chrono::milliseconds(50)); return w.try_lock_shared_until(std::chrono::steady_clock::now() + std::chrono::milliseconds(50)); }
                                 }
                                 if constexpr (const_lock) { if (kind == O_CONST_LOCK) return static_cast<const W&>(w).lock(); }
                                 return w.lock_shared();
